@@ -45,13 +45,8 @@ def run(ctx):
     ctx.analysed['bodies'].update(parent.keys())
     ctx.analysed['notes'].append({'external_callees': {k: list(v) for k, v in sorted(ext.items())}, 'cone_stopped_at': sorted(inner)})
     triage = cone.load_triage(TRIAGE)
-    for key, lst in cone.group_keys(srcs):
-        s = lst[0]
-        cls = triage.get(key)
-        if cls and cls[0] == 'infeasible':
-            ctx.ok('U1.panic-source(reviewed-infeasible)', key, s.loc, cls[1])
-        else:
-            ctx.fail('U1.panic-source', key, s.loc, 'panic source reachable from connection setup (%s) via %s' % (s.kind, ' -> '.join(x.split('::')[-1] if '{closure' not in x else x.split('::')[-2] + '::{closure}' for x in G.chain(parent, s.fn))))
+    cone.judge(ctx, 'U1.panic-source', cone.group_keys(srcs), triage,
+               lambda s: 'panic source reachable from connection setup (%s) via %s' % (s.kind, ' -> '.join(x.split('::')[-1] if '{closure' not in x else x.split('::')[-2] + '::{closure}' for x in G.chain(parent, s.fn))))
     ctx.floor('U1', 'bodies in the setup cone', len(parent), 10)
 
     # ------------------------------------------------------------------ U2 TCP constructor paths
